@@ -257,9 +257,18 @@ def cases_file_text(stream, inputs_expected, what="mismatches"):
 def run_model(ctx, prop, stream, cases, results):
     """Returns (list of mismatching case indices, error text or None)."""
     canon = stream.get("canon", lambda r: r)
-    rows = []
-    for c, r in zip(cases, results):
-        inp = stream["coq_input_r"](c, r) if "coq_input_r" in stream else stream["coq_input"](c)
+    rows, index, no_input = [], [], []
+    for i, (c, r) in enumerate(zip(cases, results)):
+        try:
+            inp = stream["coq_input_r"](c, r) if "coq_input_r" in stream else stream["coq_input"](c)
+        except Exception:
+            if not isinstance(r, Err):
+                raise
+            # the model input is derived from what the implementation returned and it returned an exception:
+            # the case cannot be put to the model and counts as a disagreement
+            no_input.append(i)
+            continue
+        index.append(i)
         rows.append((inp, coqfmt.val(r if isinstance(r, Err) else canon(r))))
     shard = int(stream.get("shard", 300))
     d = ctx.scratch()
@@ -293,8 +302,8 @@ def run_model(ctx, prop, stream, cases, results):
                 body = m.group(1).strip()
                 if body:
                     for tok in body.replace("%Z", "").split(";"):
-                        mism.append(k + int(tok.strip().strip("()")))
-        return sorted(mism), ("\n".join(errs) if errs else None)
+                        mism.append(index[k + int(tok.strip().strip("()"))])
+        return sorted(mism + no_input), ("\n".join(errs) if errs else None)
     finally:
         shutil.rmtree(d, ignore_errors=True)
 
@@ -304,7 +313,10 @@ def model_values(ctx, stream, cases, limit=3, results=None):
     if "coq_input_r" in stream:
         if results is None:
             return "not shown: the model input of this stream depends on the implementation's result"
-        rows = [(stream["coq_input_r"](c, r), "VNone") for c, r in list(zip(cases, results))[:limit]]
+        try:
+            rows = [(stream["coq_input_r"](c, r), "VNone") for c, r in list(zip(cases, results))[:limit]]
+        except Exception:
+            return "not shown: the model input of this stream is derived from the implementation's result, which is an exception"
     else:
         rows = [(stream["coq_input"](c), "VNone") for c in cases[:limit]]
     d = ctx.scratch()
